@@ -164,9 +164,10 @@ def oracle(ck, n, thorough=False):
         except Exception as ex:
             ok, obs, exp = False, {'raised': f'{type(ex).__name__}: {ex}'[:300]}, None
         has_unk = bool(((stim == 1) | (stim == 2)).any()) and bool(((stim == 0) | (stim == 3)).any())
+        hyp_tag = common.allcirc_hyp(ck, c, [case['strip']], 'C02')
         ck.case(key=(circ.dump_net(c), m, case['strip'], case['reuse']), nontrivial=d['lines'] >= 4 and (has_unk or 1 not in dom),
                 sample={'net': circ.dump_net(c), 'm': m, 'sims': sims, 'stim_lane0': ''.join(map(str, stim[:, 0]))},
-                tag=[f'm:{m}', f"strip:{case['strip']}", f"reuse:{case['reuse']}", f'sims:{sims}', 'unknowns' if has_unk else 'no-unknowns'])
+                tag=[f'm:{m}', f"strip:{case['strip']}", f"reuse:{case['reuse']}", f'sims:{sims}', 'unknowns' if has_unk else 'no-unknowns', hyp_tag, common.netspec_hyp(c)])
         if not ok:
             ck.violation('logic-mv', f"LogicSim(m={m}) {obs.get('check', 'run') if obs else ''}: differs from the documented algebra", case, obs, exp)
 
@@ -178,7 +179,9 @@ def run(ck):
     if ck.broken and not ck.violations:
         oracle(ck, n * 5, ck.tier == 'thorough')
     ck.assumptions += ['the gate-by-gate netlist semantics uses the hand-written spec algebra (Model/Val.lean, Model/Comp.lean) and spec kind families (Model/Net.lean)',
-                       'memory map/schedule of SimOps: tied by exact model correspondence in C01/C08, not re-checked here']
+                       'memory map/schedule of SimOps: tied by exact model correspondence in C01/C08, not re-checked here',
+                       'the all-circuits theorems (sim8/sim4_all_circuits, xsound*_all_circuits, components_all_circuits, *_memory_all_circuits) speak about the rows and tables of the Lean SimOps model; their hypotheses wfB/orderOKB/forksOKB/readsDrivenB are evaluated by the driver on every real circuit and order (tag allcirc-hyp)',
+                       'netlist reading (gate_equations_are_netlist, sim8/sim4_netlist_all_circuits, oracle_labelling_is_simulation): row equations = lineEq of the specification evaluator; hypotheses forksOKB / linesDrivenB evaluated on every real circuit (tag netspec-hyp); the evaluator result is checked by consistentB on every case']
     return ck.finish(RULE)
 
 
